@@ -54,7 +54,11 @@ class _TextCueParser:
 
   def __init__(self, paragraph: model.P, line_number: int) -> None:
     self.line_num: int = line_number
+    self.paragraph: model.P = paragraph
     self.parent: model.ContentElement = paragraph
+
+    # begin time, relative to the cue, of the text that follows the latest timestamp tag
+    self.text_begin: typing.Optional[Fraction] = None
 
     # handle the special case of ruby elements where children cannot be added one by one
     self.ruby_rbc: typing.Optional[model.Rbc] = None
@@ -73,21 +77,12 @@ class _TextCueParser:
       raise ValueError("Unknown token type")
 
   def _handle_ts(self, token: TimestampTagToken):
-
-    span = self._make_span(self.parent)
-    self.parent.push_child(span)
-    self.parent = span
+    # the text that follows the timestamp tag, whatever its nesting, begins at the timestamp
 
     ts = vtt_timestamp_to_secs(token.timestamp)
-    parent_begin = None
-    parent = self.parent
-    while parent is not None:
-      parent_begin = parent.get_begin()
-      if parent_begin is not None:
-        break
-      parent = parent.parent()
-    if ts is not None and parent_begin is not None and parent_begin <= ts:
-      span.set_begin(ts - parent_begin)
+    cue_begin = self.paragraph.get_begin()
+    if ts is not None and cue_begin is not None and cue_begin <= ts:
+      self.text_begin = ts - cue_begin
     else:
       LOGGER.warning("Invalid timestamp tag %s", token.timestamp)
 
@@ -177,6 +172,7 @@ class _TextCueParser:
       if i > 0:
         self.parent.push_child(model.Br(self.parent.get_doc()))
       span = self._make_span(self.parent)
+      span.set_begin(self.text_begin)
       span.push_child(model.Text(self.parent.get_doc(), line))
       if isinstance(self.parent, model.Ruby):
         rb = model.Rb(self.parent.get_doc())
